@@ -131,13 +131,6 @@ harnesses! {
     #[unwind(6)] fn rt_two_57_24() { two_messages::<57, 24>() }
     #[unwind(6)] fn rt_two_25_25() { two_messages::<25, 25>() }
 
-    #[unwind(12)] fn ipc_val_string3() {
-        let b: [u8; 3] = kani::any();
-        kani::assume(b[0] < 128 && b[1] < 128 && b[2] < 128); // ASCII: any such string is valid UTF-8
-        let v = String::from_utf8(b.to_vec()).unwrap();
-        let v2 = v.clone();
-        ipc_value(v, |a, c| a.as_bytes().len() == 3 && a.as_bytes()[0] == c.as_bytes()[0] && a.as_bytes()[1] == c.as_bytes()[1] && a.as_bytes()[2] == c.as_bytes()[2], v2)
-    }
     #[unwind(8)] fn ipc_val_nested_struct() {
         let v = Nested { a: kani::any(), b: Some((kani::any(), e3(2))), c: [kani::any(), kani::any()], d: Inner { x: kani::any(), y: None } };
         ipc_value(v, |p, q| p == q, v)
